@@ -262,3 +262,28 @@ func rebaseValue(v reflect.Value, root string) {
 		}
 	}
 }
+
+// projectsEqualAny / diffAny / serviceDiffSig compare arbitrary model values with the project options.
+func projectsEqualAny(a, b any) bool { return reflect.DeepEqual(a, b) || cmp.Equal(a, b, cmpProject) }
+
+func diffAny(a, b any) string {
+	d := cmp.Diff(a, b, cmpProject)
+	if len(d) > 2500 {
+		d = d[:2500] + "\n..."
+	}
+	return d
+}
+
+func serviceDiffSig(a, b any) string {
+	var r pathReporter
+	cmp.Equal(a, b, append(cmp.Options{cmp.Reporter(&r)}, cmpProject...))
+	if len(r.paths) == 0 {
+		return "?"
+	}
+	sort.Strings(r.paths)
+	segs := strings.Split(r.paths[0], ".")
+	if len(segs) > 2 {
+		segs = segs[:2]
+	}
+	return strings.Join(segs, ".")
+}
